@@ -22,14 +22,20 @@ for h, subj in fixes:
     checks = prop.get(h7, []) + [c for c in extra.get(h7, []) if c not in prop.get(h7, [])]
     if not checks:
         print(h7, "no recorded property:", subj); continue
-    diff = subprocess.run(["git", "-C", "/repo", "show", "--format=", h], capture_output=True, text=True).stdout
-    r = subprocess.run(["git", "-C", "/repo", "apply", "-R", "-"], input=diff, capture_output=True, text=True)
-    if r.returncode != 0:
-        r = subprocess.run(["git", "-C", "/repo", "apply", "-R", "-3", "-"], input=diff, capture_output=True, text=True)
+    if subprocess.run(["git", "-C", "/repo", "status", "--porcelain"], capture_output=True, text=True).stdout.strip():
+        print("the working tree of /repo is not clean: stop"); break
+    # a later fix that touches the same lines has to come out first
+    together = {"7362e91": ["b301da1"]}.get(h7, []) + [h]
+    r = None
+    for hh in together:
+        diff = subprocess.run(["git", "-C", "/repo", "show", "--format=", hh], capture_output=True, text=True).stdout
+        r = subprocess.run(["git", "-C", "/repo", "apply", "-R", "-"], input=diff, capture_output=True, text=True)
+        if r.returncode != 0:
+            break
     if r.returncode != 0:
         rec = {"fix": h7, "subject": subj, "reverted": False, "why": r.stderr[:200]}
         print(json.dumps(rec)); out.write(json.dumps(rec) + "\n"); out.flush()
-        subprocess.run(["git", "-C", "/repo", "checkout", "--", "."]); continue
+        subprocess.run(["git", "-C", "/repo", "reset", "-q", "--hard", "HEAD"]); continue
     try:
         b = subprocess.run("cd /repo && GOFLAGS=-mod=mod GOPROXY=off GOSUMDB=off GOTOOLCHAIN=local go build ./... 2>&1 | grep -v sqlite | grep -c error",
                            shell=True, capture_output=True, text=True)
@@ -42,5 +48,5 @@ for h, subj in fixes:
                    "violations": len(v), "with_failing_input": len(v) - nf, "wall_s": round(time.time() - t, 1)}
             print(json.dumps(rec)); out.write(json.dumps(rec) + "\n"); out.flush()
     finally:
-        subprocess.run(["git", "-C", "/repo", "checkout", "--", "."])
+        subprocess.run(["git", "-C", "/repo", "reset", "-q", "--hard", "HEAD"])
         subprocess.run(["git", "-C", "/repo", "clean", "-fdq"])
